@@ -577,6 +577,7 @@ func Unscheduled(t *tr.W, r *rand.Rand, n int) {
 
 func init() {
 	tr.Register("lru", func(t *tr.W, thorough bool) {
+		tr.MaxHangs = 6
 		r := tr.Rng(16)
 		b := tr.EnvInt("VERIF_BUDGET", 1)
 		if thorough {
